@@ -31,6 +31,9 @@ NCPU = min(16, os.cpu_count() or 4)
 REALISTIC = ("18015.3", "1000000")       # W is water (18.0153 g/mol, 1 g/mL), volumes of ~0.1 L
 DECIMAL = ("2000", "20000")              # 2 mL and 20 mmol per model unit (W: 100 g/mol): lattice values with 2^k denominators are
                                          # short decimals and stay in the range where the library's 1e-10 rounding is effective
+MICRO = ("36.0306", "1")                 # 36 uL / 1 umol per unit (a heavy solute): the scale of a well, where absolute
+                                         # thresholds and roundings in base units (mol, L) show
+NANO = ("36.0306", "0.001")              # 36 uL / 1 nmol per unit: one step from the initial state only
 TINY = ("36.0306", "0.1")                # 36 uL / 0.1 umol per unit: sub-micromole amounts (a heavy solute)
 BIG = ("1801530", "100000000")           # 1.8 L / 100 mol per unit: stays far above the rounding quantum of every storage configuration
 
@@ -217,10 +220,10 @@ def slicer_leg(shapes, tag=""):
 
 SLICER_QUICK = [(1, 1, "default", 1), (1, 2, "default", 1), (2, 1, "default", 1), (2, 2, "default", 1), (1, 3, "default", 1),
                 (3, 1, "default", 1), (2, 3, "default", 2), (3, 2, "default", 2), (3, 3, "default", 4), (2, 3, "custom", 2),
-                (27, 1, "default", 2), (28, 1, "default", 2)]
+                (2, 3, "numeric", 2), (27, 1, "default", 2), (28, 1, "default", 2)]
 SLICER_THOROUGH = SLICER_QUICK + [(1, 4, "default", 1), (4, 1, "default", 1), (2, 4, "default", 2), (4, 2, "default", 2),
                                   (3, 4, "default", 4), (4, 3, "default", 4), (4, 4, "default", 6), (3, 3, "custom", 4),
-                                  (3, 2, "custom", 2), (1, 27, "default", 1), (4, 4, "custom", 6)]
+                                  (3, 2, "custom", 2), (1, 27, "default", 1), (4, 4, "custom", 6), (3, 3, "numeric", 4)]
 
 LAB_PROPS = ("C01", "C02", "C03", "C04", "C07", "C10", "C11", "C17", "C19")      # properties decided on Lab instances
 
@@ -245,6 +248,11 @@ def plan(prop, tier, seed):
         legs.append(lambda: obs_leg(8 if q else 16, 40 if q else 250, 40 if q else 60, REALISTIC, seed))
         if not q:
             legs.append(lambda: obs_leg(16, 250, 60, DECIMAL, seed + 7, tag="dec"))
+    skipadm = {"VERIF_SKIP_ADMISSIBLE": "1"}
+    if prop in ("C02", "C03", "C10", "C11"):
+        legs.append(lambda: lab_leg("LabCF", 1, 2, NANO, seed, env_extra=skipadm, tag="nano"))
+    if prop in ("C05", "C12", "C03", "C10"):
+        legs.append(lambda: lab_leg("LabSOL", 1, 8, MICRO, seed, env_extra=skipadm, overrides=None if q else {"SolCases": "SOL_Cases", "FromCases": "SOL_FromFull"}, tag="micro"))
     if prop in ("C05", "C12", "C03", "C04", "C10", "C19"):
         if q:
             legs.append(lambda: lab_leg("LabSOL", 1, 8, REALISTIC, seed))
